@@ -97,6 +97,7 @@ type Engine struct {
 	dropped   map[string]int
 	assumes   map[string]bool
 	maxInline int
+	opaque    map[string]bool
 	inlineMax int
 	modSets   map[*ssa.Function]*modSet
 	modBusy   map[*ssa.Function]bool
@@ -138,6 +139,8 @@ type Exec struct {
 	guardHook  func(f *frame, comp, mu string, h *Heap, g string, in ssa.Instruction)
 	shadow     map[string]Val
 	callLog    []callRec
+	curCallee  *ssa.Function
+	allAllocs  []string
 }
 
 type callRec struct {
@@ -578,6 +581,9 @@ func (e *Exec) freshVal(prefix string, t types.Type) Val {
 	}
 	v := Val{T: e.s.freshConst(prefix, e.s.sortOf(t)), Typ: t}
 	e.wf(v)
+	if !strings.HasPrefix(prefix, "phi_") && !strings.HasPrefix(prefix, "dphi") {
+		e.notPrivate(v)
+	}
 	return v
 }
 
@@ -986,6 +992,9 @@ func (e *Exec) loopHeader(f *frame, li *loopInfo, loops map[*ssa.BasicBlock]*loo
 	}
 	// establishment
 	for _, c := range invs {
+		if !e.wantClause(c) {
+			continue
+		}
 		t := e.evalInvariant(f, c, li, h, nil)
 		e.addObligation(f, "inv-entry", c, fmt.Sprintf("loop%d.%s.entry", li.ord, labelOr(c, "inv")), g, t, b.Instrs[0].Pos())
 	}
@@ -1098,6 +1107,7 @@ func (e *Exec) discoverLoopMods(f *frame, li *loopInfo, loops map[*ssa.BasicBloc
 	savedPriv := append([]*privRef{}, e.priv...)
 	savedLoopCtx := len(e.loopCtx)
 	savedAlloc := e.allocN
+	savedAll := append([]string{}, e.allAllocs...)
 	savedOrd := map[string]int{}
 	for k, v := range e.callOrd {
 		savedOrd[k] = v
@@ -1154,6 +1164,7 @@ func (e *Exec) discoverLoopMods(f *frame, li *loopInfo, loops map[*ssa.BasicBloc
 	e.priv = savedPriv
 	e.loopCtx = e.loopCtx[:savedLoopCtx]
 	e.allocN = savedAlloc
+	e.allAllocs = savedAll
 	e.callOrd = savedOrd
 	e.havocCount = hv
 	// components declared during discovery stay known (sorts only)
@@ -1216,6 +1227,9 @@ func (e *Exec) backEdge(f *frame, from, header *ssa.BasicBlock, h *Heap, g strin
 		}
 	}
 	for _, c := range lc.invs {
+		if !e.wantClause(c) {
+			continue
+		}
 		t := e.evalInvariant(f, c, lc.li, h, over)
 		e.addObligation(f, "inv-preserve", c, fmt.Sprintf("loop%d.%s.preserved@b%d", lc.li.ord, labelOr(c, "inv"), from.Index), g, t, header.Instrs[0].Pos())
 	}
@@ -1363,7 +1377,38 @@ func (o *Obligation) callResult(model map[string]string, keySuffix string, k, re
 
 func (e *Exec) newAlloc() string {
 	e.allocN++
-	return fmt.Sprintf("(- %d)", e.allocN)
+	r := fmt.Sprintf("(- %d)", e.allocN)
+	e.allAllocs = append(e.allAllocs, r)
+	return r
+}
+
+// notPrivate: a reference obtained from the heap or from a callee is an object that existed before
+// (non-negative id) or one of this function's allocations that has been published.
+func (e *Exec) notPrivate(v Val) {
+	if e.pure > 0 || e.specDepth > 0 || v.Typ == nil || v.T == "" || len(v.Allocs) > 0 || v.A != nil {
+		return
+	}
+	var base string
+	switch e.s.sortOf(v.Typ) {
+	case "Ref":
+		base = v.T
+	case "Slice":
+		base = "(sl_base " + v.T + ")"
+	case "Iface":
+		base = "(if_ref " + v.T + ")"
+	default:
+		return
+	}
+	if isAllocRef(base) || base == "null" {
+		return
+	}
+	alts := []string{"(>= " + base + " 0)"}
+	for _, a := range e.allAllocs {
+		if !e.isPrivateRef(a) {
+			alts = append(alts, eq(base, a))
+		}
+	}
+	e.s.assert(or(alts...))
 }
 
 // curHeap: type invariants only speak about the value itself; an empty heap view suffices.
